@@ -103,16 +103,24 @@ func SourceFileFunction(env *Zlisp, name string, args []Sexp) (Sexp, error) {
 		return SexpNull, WrongNargs
 	}
 
+	// every sourced file leaves its value on the data stack; the call
+	// has one result, the last of them, and leaves the stack as deep
+	// as it found it (no file at all: nothing to take, the result is nil).
+	start := env.datastack.Size()
 	for _, v := range args {
 		if err := env.sourceItem(v); err != nil {
 			return SexpNull, err
 		}
+	}
+	if env.datastack.Size() <= start {
+		return SexpNull, nil
 	}
 
 	result, err := env.datastack.PopExpr()
 	if err != nil {
 		return SexpNull, err
 	}
+	env.datastack.TruncateToSize(start)
 	return result, nil
 }
 
